@@ -1,19 +1,48 @@
-import H2V.Model.HpackEnc
-import H2V.Spec.HpackSync
+import H2V.Props.C10Tables
+import H2V.Lemmas.HpackEnc
 /-
   C10 — HPACK encoder and decoder stay in sync.  Property theorems only.
 -/
 namespace H2V.Props.C10
-open H2V H2V.Model.Hpack
+open H2V H2V.Model.Hpack H2V.Lemmas.HpackEnc
 
-/-- every rule of `index_static` (regenerated from the source) points at a static-table entry of
-    RFC 7541 Appendix A with that name, and claims a value match only when the value is the
-    entry's value -/
-def ruleSound (r : List Nat × Option (List Nat) × Nat × Bool) : Bool :=
-  match Spec.Rfc7541.staticTable[r.2.2.1 - 1]? with
-  | some (n, v) => r.2.2.1 ≥ 1 && n == r.1 && (if r.2.2.2 then r.2.1 == some v else true)
-  | none => false
+/-- **decode(encode(h)) = h for every history.** From `Encoder::new(n)` against a conforming RFC 7541
+    decoder that starts with the same table size, for EVERY sequence of peer
+    SETTINGS_HEADER_TABLE_SIZE changes (any values, repeated, including 0) and submitted header
+    lists (any names, values, repeats, sensitive values, the `HeaderMap` "nameless" yields; octets
+    < 256, lengths < 2^59), `Encoder::encode` never panics and every emitted block is accepted by
+    the reference monitor `Spec.HpackSync.Mon.block`: the reference decoder reads back exactly the
+    submitted fields in order, the table never exceeds what the peer allows, and a reduction is
+    signalled at the start of the block (minimum first). -/
+theorem roundtrip_history (n : Nat) (ops : List Op) (hwf : WF ops) :
+    runOk (Encoder.new n) (Spec.HpackSync.Mon.init (min n 4096)) ops :=
+  Lemmas.HpackEnc.roundtrip_history n ops hwf
 
-theorem index_static_sound : Generated.IndexStatic.rules.all ruleSound = true := by decide +kernel
+/-- the encoder's dynamic table: exact size accounting, never above its maximum, maximum never above
+    4096, in every reachable state -/
+theorem table_bounded (n : Nat) (ops : List Op) (hwf : WF ops) (e : Encoder) (m : Spec.HpackSync.Mon)
+    (hrun : run (Encoder.new n) (Spec.HpackSync.Mon.init (min n 4096)) ops = some (e, m)) :
+    e.size = Spec.Hpack.tableSize e.entries ∧ e.size ≤ e.maxSize ∧ e.maxSize ≤ 4096 :=
+  Lemmas.HpackEnc.table_bounded n ops hwf e m hrun
+
+/-- at every block end the table maximum is exactly min(what the peer allowed, 4096) and no size
+    update is left pending -/
+theorem table_bounded_block_end (n : Nat) (ops : List Op) (fs : List Field)
+    (hwf : WF (ops ++ [.block fs])) (e : Encoder) (m : Spec.HpackSync.Mon)
+    (hrun : run (Encoder.new n) (Spec.HpackSync.Mon.init (min n 4096)) (ops ++ [.block fs]) = some (e, m)) :
+    e.size ≤ e.maxSize ∧ e.maxSize = min m.allowed 4096 ∧ e.sizeUpdate = none :=
+  Lemmas.HpackEnc.table_bounded_block_end n ops fs hwf e m hrun
+
+/-- a reduction of the allowed table size is signalled by a size update at the very start of the
+    next block, with a value not above the reduced size -/
+theorem reduction_signalled_first (e : Encoder) (m : Spec.HpackSync.Mon) (v : Nat) (fs : List Field)
+    (hs : Sync e m) (hv : v < e.maxSize) (e' : Encoder) (bytes : Bytes)
+    (henc : (e.updateMaxSize v).encode fs = some (e', bytes)) :
+    ∃ u, Spec.HpackSync.leadingSizeUpdate bytes = some u ∧ u ≤ v :=
+  Lemmas.HpackEnc.reduction_signalled_first e m v fs hs hv e' bytes henc
+
+-- non-vacuity: a concrete history (shrink to 100, two blocks with a repeated and a nameless field) is well-formed
+example : WF [.setMax 100, .block [⟨([120, 45, 97], [49]), false, false⟩, ⟨([120, 45, 97], [50]), false, true⟩],
+              .block [⟨([120, 45, 97], [49]), false, false⟩]] := by decide
 
 end H2V.Props.C10
